@@ -253,3 +253,15 @@ func (w *World) condAtomsDeep(f *ssa.Function) map[string]bool {
 	}
 	return out
 }
+
+// transparentRoot: the function a transparent helper is (transitively) part of.
+func transparentRoot(f *ssa.Function) *ssa.Function {
+	for i := 0; i < 6; i++ {
+		site := transparentSite(f)
+		if site == nil {
+			return f
+		}
+		f = site.Parent()
+	}
+	return f
+}
